@@ -60,7 +60,7 @@ MANIFEST = {
              '(any member list, any names, any arguments, any dispatcher outcome) and every endpoint list / URI of the Gallina '
              'transcription of ClientProxyBuilder._BuildServiceProxy and ScalesUriParser.Parse (incl. the part of urlsplit and '
              'int() they rely on); the transcription is compared with the real code on ~1k interfaces (~25k lookups/calls) and '
-             '~2.5k URIs per quick run (x12 thorough).'),
+             '~2.5k URIs per quick run (x10 thorough).'),
     'note': ('Specification-sized model: the weight rests on the correspondence (Python reflection, urlsplit and int() are '
              'environment). Trusted: Coq kernel, the harness and its sampling. All theorems closed under the global context.'),
     'technique': 'Coq proof (dictionary-update invariants, split/join and decimal round-trip) + differential execution model vs code',
@@ -444,8 +444,8 @@ FIXED_URIS = ['tcp://localhost:8080,localhost:8081', 'zk://zk1.zk.com:2181/test/
 
 
 def gen_cases(tier, seed):
-  n_proxy = 1000 if tier == 'quick' else 12000
-  n_uri = 2000 if tier == 'quick' else 24000
+  n_proxy = 1000 if tier == 'quick' else 10000
+  n_uri = 2000 if tier == 'quick' else 20000
   out = [{'kind': 'raw', 'uri': u} for u in FIXED_URIS]
   for i in range(n_proxy):
     out.append(gen_proxy(C.case_rng(seed, PID, i), i))
@@ -781,8 +781,6 @@ def monitor_proxy(case, obs):
     return [('proxy-construction-failed', 'building/instantiating the client raised %s' % obs.get('ctor'))]
   if not obs.get('isinstance', True):
     v.append(('proxy-not-instance', 'the client is not an instance of the interface'))
-  if not obs.get('cache_same', True):
-    v.append(('proxy-cache', 'CreateServiceClient returned two different classes for one interface'))
   pub, unspec = public_methods(case, obs['mro'])
   forwarding = pub | unspec
   for op, o in zip(case['ops'], obs['probes']):
